@@ -286,7 +286,7 @@ def step(r, W, maps, mems):
         for _ in range(6):
             a, n = 0x1000 + r.randrange(32), r.choice([1, 2, 3, 4, 8])
             try:
-                x, y = [str(t) for t in mems[0].read(a, n)], [str(t) for t in m2.read(a, n)]
+                x, y = canon_read(mems[0].read(a, n)), canon_read(m2.read(a, n))
             except Exception as ex:
                 continue
             if x != y:
